@@ -326,6 +326,19 @@ Proof.
     rewrite ksum_cons. reflexivity.
 Qed.
 
+(** sum of products of sums *)
+Lemma ksum_prod : forall (A B C : Type) (la : list A) (lb : list B) (lc : list C)
+  (f : A -> C -> K) (g : B -> C -> K),
+  ksum lc (fun u => kmul (ksum la (fun a => f a u)) (ksum lb (fun b => g b u))) =
+  ksum la (fun a => ksum lb (fun b => ksum lc (fun u => kmul (f a u) (g b u)))).
+Proof.
+  intros A B C la lb lc f g.
+  transitivity (ksum lc (fun u => ksum la (fun a => ksum lb (fun b => kmul (f a u) (g b u))))).
+  - apply ksum_ext; intros u _. rewrite <- ksum_scale_r. apply ksum_ext; intros a _.
+    rewrite <- ksum_scale_l. reflexivity.
+  - rewrite ksum_swap. apply ksum_ext; intros a _. apply ksum_swap.
+Qed.
+
 (** a sum whose terms vanish except at one point *)
 Lemma ksum_single : forall (A : Type) (l : list A) (u0 : A) (f : A -> K),
   NoDup l -> In u0 l -> (forall u, In u l -> u <> u0 -> f u = k0) -> ksum l f = f u0.
